@@ -1,0 +1,137 @@
+//! Verification hooks (feature `verif-hooks`).
+//!
+//! Observation-only instrumentation of the parallel runner: the hook installed with [`set_hook`] is
+//! called at the runner's decision points. No hook changes a decision, a value or an ordering of the
+//! runner; a hook may block, which lets an external harness own the schedule of the spawning thread
+//! and the workers.
+//!
+//! Without the feature this module does not exist and the runner is compiled exactly as before.
+
+use std::sync::atomic::{AtomicUsize, Ordering};
+use std::sync::{Arc, RwLock};
+
+/// Events reported by the runner.
+#[derive(Clone, Copy, Debug, PartialEq, Eq)]
+pub enum Event {
+    /// A parallel run is about to start on the calling thread (the spawner).
+    RunBegin {
+        /// Resolved upper bound on the number of workers.
+        max_num_threads: usize,
+        /// Resolved initial chunk size.
+        chunk_size: usize,
+        /// Whether the resolved chunk size is exact (`true`) or a minimum (`false`).
+        exact: bool,
+        /// Input length if known.
+        input_len: Option<usize>,
+    },
+    /// The spawner is about to decide whether to spawn another worker (reads `has_more`).
+    SpawnCheck {
+        /// Workers spawned so far.
+        num_spawned: usize,
+    },
+    /// The spawner finished a lag period and is about to decide the next chunk size (reads `has_more`).
+    ChunkCheck {
+        /// Workers spawned so far.
+        num_spawned: usize,
+    },
+    /// The spawner spawned its last worker and is about to join.
+    SpawnerDone {
+        /// Workers spawned in total.
+        num_spawned: usize,
+    },
+    /// The run is over (also reported while unwinding).
+    RunEnd,
+    /// A worker thread started.
+    WorkerBegin {
+        /// Start order of the worker within its run.
+        index: usize,
+        /// Chunk size given to the worker.
+        chunk: usize,
+    },
+    /// A worker thread is about to finish (also reported while unwinding).
+    WorkerEnd {
+        /// Start order of the worker within its run.
+        index: usize,
+        /// Whether the worker is unwinding from a panic.
+        panicking: bool,
+    },
+}
+
+type Hook = Arc<dyn Fn(Event) + Send + Sync>;
+
+static HOOK: RwLock<Option<Hook>> = RwLock::new(None);
+
+/// Installs the process-wide hook.
+pub fn set_hook<F: Fn(Event) + Send + Sync + 'static>(hook: F) {
+    let mut guard = HOOK.write().unwrap_or_else(|e| e.into_inner());
+    *guard = Some(Arc::new(hook));
+}
+
+/// Removes the process-wide hook.
+pub fn clear_hook() {
+    let mut guard = HOOK.write().unwrap_or_else(|e| e.into_inner());
+    *guard = None;
+}
+
+#[inline]
+pub(crate) fn emit(event: Event) {
+    let hook = {
+        let guard = HOOK.read().unwrap_or_else(|e| e.into_inner());
+        guard.clone()
+    };
+    if let Some(hook) = hook {
+        hook(event);
+    }
+}
+
+/// Per-run context: hands out worker indices and reports `RunEnd` when dropped.
+pub(crate) struct RunCtx {
+    next_index: AtomicUsize,
+}
+
+impl RunCtx {
+    pub(crate) fn begin(
+        max_num_threads: usize,
+        chunk_size: usize,
+        exact: bool,
+        input_len: Option<usize>,
+    ) -> Self {
+        emit(Event::RunBegin {
+            max_num_threads,
+            chunk_size,
+            exact,
+            input_len,
+        });
+        Self {
+            next_index: AtomicUsize::new(0),
+        }
+    }
+}
+
+impl Drop for RunCtx {
+    fn drop(&mut self) {
+        emit(Event::RunEnd);
+    }
+}
+
+/// Lives for the duration of one worker's task.
+pub(crate) struct WorkerGuard {
+    index: usize,
+}
+
+impl WorkerGuard {
+    pub(crate) fn new(ctx: &RunCtx, chunk: usize) -> Self {
+        let index = ctx.next_index.fetch_add(1, Ordering::SeqCst);
+        emit(Event::WorkerBegin { index, chunk });
+        Self { index }
+    }
+}
+
+impl Drop for WorkerGuard {
+    fn drop(&mut self) {
+        emit(Event::WorkerEnd {
+            index: self.index,
+            panicking: std::thread::panicking(),
+        });
+    }
+}
